@@ -146,6 +146,12 @@ func Soc(addr, payload []byte) SocView {
 	}
 	v.WrappedOK = true
 	digest := EthDigest(Keccak(v.ID, waddr))
+	// Ethereum (r, s, v) format: v is 27 + recovery id (0..3).  Other values of v are not
+	// signatures in this format (btcec would read v+4 as the same recovery id with a
+	// "compressed key" flag; that is an encoding of btcec's compact format, not of this one).
+	if sig[64] < 27 || sig[64] > 30 {
+		return v
+	}
 	compact := make([]byte, 65)
 	compact[0] = sig[64]
 	copy(compact[1:], sig[:64])
